@@ -88,6 +88,14 @@ func TestNextHandComputed(t *testing.T) {
 		// Lord Howe: half-hour DST. 2019-04-07 02:00 (+11) -> 01:30 (+10:30)
 		{Standard, "TZ=Australia/Lord_Howe 45 1 * * *", "UTC", "2019-04-07T01:50:00+11:00", "2019-04-07T01:45:00+10:30"},
 		{Standard, "TZ=Australia/Lord_Howe 15 1 * * *", "UTC", "2019-04-07T01:50:00+11:00", "2019-04-08T01:15:00+10:30"},
+		// beyond the zone tables (extrapolated rules): ZoneBounds reports year-by-year pieces and, on 31 December
+		// of a leap year, an end that is already past; the search must neither stall nor miss
+		{Standard, "TZ=Europe/Berlin @annually", "UTC", "2096-12-11T14:01:58+01:00", "2097-01-01T00:00:00+01:00"},
+		{Standard, "TZ=Europe/Berlin 30 12 31 12 *", "UTC", "2040-12-30T14:01:58+01:00", "2040-12-31T12:30:00+01:00"},
+		{Standard, "TZ=America/New_York 30 2 * 3 SUN", "UTC", "2040-12-30T14:01:58-05:00", "2041-03-03T02:30:00-05:00"},
+		{Standard, "TZ=America/New_York 30 2 10 3 *", "UTC", "2040-12-30T14:01:58-05:00", "2042-03-10T02:30:00-04:00"}, // 2041-03-10 is the spring-forward day
+		{Standard, "0 0 29 2 *", "Europe/Berlin", "2099-06-01T00:00:00+02:00", "2104-02-29T00:00:00+01:00"},
+		{Standard, "0 0 29 2 *", "Europe/Berlin", "2098-06-01T00:00:00+02:00", ""},
 	}
 	for _, c := range cases {
 		sp, err := Parse(c.expr, c.opts)
